@@ -34,6 +34,9 @@ func c17BatchFile(r *RNG, L int, crlf bool, blanks float64, trailingNL bool) (co
 		if r.Bool(0.3) {
 			line += " poligonID=x" + fmt.Sprint(r.Intn(99))
 		}
+		if blanks > 0 && r.Bool(0.12) {
+			line = r.PickS([]string{" ", "   ", "\t", " \t "}) // not empty: a line of white space is a batch line (it fails with a reported error)
+		}
 		nonEmpty = append(nonEmpty, line)
 		b.WriteString(line)
 		if i < L-1 || trailingNL {
@@ -165,6 +168,44 @@ func execC17(sc *Scenario, env *Env) *Result {
 			executed[id]++
 		}
 	}
+	// the same ranges through the shipped binary (real main(): flag parsing, batch-file reading), unscheduled
+	if bin := os.Getenv("VERIF_HERMES2GO"); bin != "" && len(ranges) <= 64 {
+		executedReal := map[string]int{}
+		ok := true
+		for _, g := range ranges {
+			if g.a < 1 || g.b < g.a {
+				continue
+			}
+			cmd := exec.Command(bin, "-module", "batch", "-concurrent", fmt.Sprint(r.Range(1, 4)), "-logoutput", "-workingdir", root, "-batch", bf, "-lines", fmt.Sprintf("%d-%d", g.a, g.b))
+			out, err := cmd.CombinedOutput()
+			if err != nil {
+				viol("real-binary", "simulator-binary-failed", fmt.Sprintf("hermes2go -lines %d-%d exited with %v: %s", g.a, g.b, err, firstLine(lastNonEmpty(string(out)))))
+				ok = false
+				break
+			}
+			for _, id := range parseDispatcher(string(out)).Started {
+				executedReal[id]++
+			}
+			res.add("nodes.real-binary", 1)
+		}
+		if ok {
+			var miss, mult []string
+			for i := 0; i < L; i++ {
+				switch n := executedReal[fmt.Sprintf("[%d]", i)]; {
+				case n == 0:
+					miss = append(miss, fmt.Sprint(i+1))
+				case n > 1:
+					mult = append(mult, fmt.Sprint(i+1))
+				}
+			}
+			if len(miss) > 0 {
+				viol("exactly-once", "lines-never-executed:real-binary", fmt.Sprintf("ranges %q handed to the simulator binary with -lines: batch lines %s were executed by no job", listOut, strings.Join(miss, ",")))
+			}
+			if len(mult) > 0 {
+				viol("exactly-once", "lines-executed-more-than-once:real-binary", fmt.Sprintf("ranges %q handed to the simulator binary with -lines: batch lines %s were executed by more than one job", listOut, strings.Join(mult, ",")))
+			}
+		}
+	}
 	var missing, multiple []string
 	for i := 0; i < L; i++ {
 		id := fmt.Sprintf("[%d]", i)
@@ -238,7 +279,7 @@ func init() {
 		Rule:       "one (lines, nodes) pair per evaluation: exhaustive over 1..12 x 1..12 (thorough: 1..40 x 1..40) plus random pairs up to 2000 lines and 64 nodes; the batch file is generated with LF or CRLF endings, optional blank lines and optional missing final line break; the real calculator binary (built from the tree) is run as a child process for -size and -list; each printed range is executed by a simulated node: a fresh session running the shipped dispatcher under the seeded scheduler with the indices main() derives from -lines a-b, on the lines main() would read; oracles: number of ranges = reported array size, ranges contiguous from 1 to the last line, multiset of executed log ids = every non-empty line exactly once; non-trivial = more than one node ran",
 		ReachKeys:  []string{"nodes.run", "reach.more-nodes-than-lines", "reach.remainder"},
 		Assumptions: []string{
-			"main()'s flag parsing (-lines a-b -> start index a-1, end b; batch file read with a line scanner, empty lines dropped) is re-implemented in a few lines by the harness; the dispatcher and the calculator are the real code",
+			"the scheduled nodes use a re-implementation of main()'s flag parsing and batch-file reading (stub); every scenario with at most 64 ranges is therefore executed a second time through the shipped simulator binary with real -batch/-lines flags (unscheduled) and judged by the same exactly-once oracle",
 			"lines are cheap failing lines (missing project argument) so that thousands of node runs fit in the budget; their log ids are read from the dispatcher's own output",
 		},
 	})
